@@ -5,7 +5,7 @@ ENGINES = [
      'kind_free_text': 'whole-crate call graph (fn items as values and closures are edges, CHA for unresolved trait calls) and transitive effect sets'},
     {'name': 'E3 bit-precise evaluator', 'path': 'analysis/bits.py rules/layout.py', 'serves_properties': ['C04', 'C12'],
      'kind_free_text': 'integers as vectors of bits, each bit a truth table over <= 8 named input bits; byte arrays at constant offsets; loop-free code only'},
-    {'name': 'E4 relational abstract interpreter', 'path': 'analysis/interp.py analysis/lin.py analysis/e4.py', 'serves_properties': ['C01', 'C14', 'C18'],
+    {'name': 'E4 relational abstract interpreter', 'path': 'analysis/interp.py analysis/lin.py analysis/e4.py', 'serves_properties': ['C01', 'C02', 'C14', 'C18'],
      'kind_free_text': 'abstract interpretation of MIR over linear constraints between immutable symbols; entailment by Fourier-Motzkin with gcd tightening; summaries with bad-region lifting; weak join, widening with thresholds, progress-ratio candidates; post-fixpoint ranking search'},
     {'name': 'E5 tables (clang AST vs MIR)', 'path': 'rules/C15.py tables/', 'serves_properties': ['C15'],
      'kind_free_text': 'clang -Xclang -ast-dump=json of src/bin/c_hook/c_hook.h compared with the ADT/fn-pointer types of the type-checked Rust crate'},
@@ -151,5 +151,16 @@ CHECKS['C14'] = {
              '(b) every label length byte it emits lies in [1, 62] (exactly the documented limit, hence never a pointer marker) and the terminator is 0; (c) every Ok exit leaves at most 253 bytes in the output buffer. '
              'NOT decided: that the emitted labels are exactly the dot-separated input labels (needs the invariant label_len = i - label_start, which the domain does not derive), the read-back through raw_name_to_str, and the exact accepted language.'),
     'note': 'Trusted: slice-iterator/enumerate/Vec contracts and the linear domain. The round-trip equality is a run-time relation.',
+}
+CHECKS['C02'] = {
+    'engine': 'E4 point queries + E3 truth table + E5 siblings', 'level': 'other',
+    'technique': 'relational abstract interpretation with value probes per dispatch arm and a hypothesis run (is_response = false), bit-exact truth table of the label-byte predicate, guard-constant and dispatch-set extraction',
+    'design_ref': 'DESIGN.md section 4, C02',
+    'text': ('Decides each clause of the acceptance policy that is visible in the code, on every accepting path: exactly one question, class IN, nothing left over, header present (dominating guards); '
+             'answer/authority loops unreachable when is_response is false (hypothesis run); per record type the exact consumption facts (A 4/14, AAAA 16/26, NS/CNAME/PTR and DNAME names filling rdlen exactly, MX name at +2, SOA two names + exactly 20 bytes, default 10+rdlen); '
+             'OPT only in Additional with a 1-byte owner and at most once; limit constants 63 / 255 / 16 with the E4 ranges they produce; the label-byte predicate refuses exactly {0x00-0x1f, 0x7f, ., \\} (256-entry truth table) and DNAME has none; '
+             'the name-bearing type sets of validator, decompressor, compressor and renamer coincide. '
+             'NOT decided: that these clauses together are the whole accepted language (both directions of the iff), "never to a root label", completeness beyond the numeric limits.'),
+    'note': 'Trusted: tables/policy.json, analysis/interp.py contracts, analysis/bits.py. Language equality is not a static object; only its visible clauses are claimed.',
 }
 NOT_APPLICABLE = {('C%02d' % i): PENDING for i in range(1, 19) if ('C%02d' % i) not in CHECKS}
